@@ -33,6 +33,9 @@ type Val struct {
 	// MapLit / MapPkg: a map built from a composite literal with constant keys (a lookup table)
 	MapLit *ast.CompositeLit
 	MapPkg *packages.Package
+	// Lit / LitEnv: a function literal and the environment it closes over (conflicts := func(key string) bool {..})
+	Lit    *ast.FuncLit
+	LitEnv *Env
 }
 
 func (v *Val) String() string {
@@ -243,6 +246,8 @@ func (env *Env) eval(e ast.Expr) *Val {
 			}
 		}
 		env.fail(e, "index "+types.ExprString(e))
+	case *ast.FuncLit:
+		return &Val{Lit: x, LitEnv: env}
 	case *ast.CompositeLit:
 		if tv, ok := info.Types[x]; ok {
 			if _, isMap := tv.Type.Underlying().(*types.Map); isMap {
@@ -429,7 +434,41 @@ func (env *Env) evalCallN(c *ast.CallExpr) []*Val {
 	info := env.Pkg.TypesInfo
 	fn, _ := typeutil.Callee(info, c).(*types.Func)
 	if fn == nil {
-		env.fail(c, "dynamic call")
+		// a local closure: its body runs in the environment it was made in (captured variables are shared)
+		var cv *Val
+		if o := objOf(info, c.Fun); o != nil {
+			cv = env.Vars[o]
+			if cv == nil && env.Body != nil {
+				if def := singleDef(info, env.Body, o); def != nil {
+					if l, isLit := ast.Unparen(def).(*ast.FuncLit); isLit {
+						cv = &Val{Lit: l, LitEnv: env}
+					}
+				}
+			}
+		}
+		if cv == nil || cv.Lit == nil || env.depth > 6 {
+			env.fail(c, "dynamic call")
+		}
+		le := cv.LitEnv
+		ce := &Env{P: le.P, Pkg: le.Pkg, Vars: le.Vars, Hook: le.Hook, Body: le.Body, Multi: le.Multi, MapOk: le.MapOk, MapStore: le.MapStore, RangeOnce: le.RangeOnce, depth: env.depth + 1}
+		i := 0
+		for _, fld := range cv.Lit.Type.Params.List {
+			for _, nm := range fld.Names {
+				if i < len(c.Args) {
+					if v, err := env.Eval(c.Args[i]); err == nil && v != nil {
+						ce.Vars[le.Pkg.TypesInfo.Defs[nm]] = v
+					} else {
+						delete(ce.Vars, le.Pkg.TypesInfo.Defs[nm])
+					}
+				}
+				i++
+			}
+		}
+		ret, done := ce.execBlock(cv.Lit.Body.List)
+		if !done || len(ret) == 0 {
+			env.fail(c, "closure does not return a value on this path")
+		}
+		return ret
 	}
 	fi := env.P.Funcs[fkey(fn)]
 	if fi == nil || fi.Decl.Body == nil {
